@@ -133,8 +133,21 @@ structure Path where
   alpha : RE
 deriving Repr, Inhabited
 
-def Path.ok (ρ : Nat → Rat) (p : Path) : Bool :=
-  p.conds.all fun c => c.1.holds (evalQ ρ c.2.1) (evalQ ρ c.2.2.1) == c.2.2.2
+/-- do the recorded comparisons have the recorded outcomes at `ρ` -/
+def condsOk (ρ : Nat → Rat) (l : List (Cmp × RE × RE × Bool)) : Bool :=
+  l.all fun c => c.1.holds (evalQ ρ c.2.1) (evalQ ρ c.2.2.1) == c.2.2.2
+
+def Path.ok (ρ : Nat → Rat) (p : Path) : Bool := condsOk ρ p.conds
+
+/-- variables of the `_CenterManifoldBackend.run` trace: 0..3 seed row, 4 dt, 10+6j+i = X_j[i] (j = 1,2,3),
+40+6j+i = R_j[i] (j = 0..3) -/
+def envB (seed : Vec) (dt : Rat) (x1 x2 x3 r0 r1 r2 r3 : Vec) : Nat → Rat := fun i =>
+  if i < 4 then seed.getD i 0 else if i = 4 then dt
+  else if i < 16 then 0
+  else if i < 22 then x1.getD (i - 16) 0 else if i < 28 then x2.getD (i - 22) 0 else if i < 34 then x3.getD (i - 28) 0
+  else if i < 40 then 0
+  else if i < 46 then r0.getD (i - 40) 0 else if i < 52 then r1.getD (i - 46) 0
+  else if i < 58 then r2.getD (i - 52) 0 else if i < 64 then r3.getD (i - 58) 0 else 0
 
 /-- semantics of a path table: the result of the first path whose conditions hold (`none`: the table is incomplete) -/
 def runPaths (ρ : Nat → Rat) : List Path → Option (Bool × Rat)
@@ -228,7 +241,7 @@ def pick {α : Type} (l : List α) (order : List Nat) : List α := order.filterM
 inductive SolveResult where
   | error                          -- `EngineError("Seed strategy produced no valid points inside Hill boundary")`
   | ok (hits : List Hit) (points : List Vec)
-deriving Repr, Inhabited
+deriving DecidableEq, Repr, Inhabited
 
 /-- `plane_points_from_states` on one row -/
 def planeOf (i j : Nat) (s : Vec) : Vec := [s.getD i 0, s.getD j 0]
